@@ -31,7 +31,21 @@ def one(sid):
     try:
         rc0, _ = sh(f"bash {src}/run.sh", wt, 900)
         res["demo_clean_rc"] = rc0
-        rc, o = sh(f"git apply {src}/patch.diff || git apply -3 {src}/patch.diff", wt)
+        # the code under a stored change may have moved since it was written (later fix: commits): plain apply; else 3-way,
+        # else GNU patch with fuzz (context lines changed by a later fix) — then the stored patch.diff is refreshed with the
+        # rebased diff (original kept as patch.orig.diff) so that `git apply` works on the current tree; only if all fail the
+        # change is reported as stale
+        rc, o = sh(f"git apply {src}/patch.diff", wt)
+        if rc != 0:
+            rc, o = sh(f"(git apply -3 {src}/patch.diff && ! git diff --name-only --diff-filter=U | grep -q .) || (git reset -q --hard HEAD && patch -p1 -F3 -s --no-backup-if-mismatch < {src}/patch.diff)", wt)
+            if rc == 0:
+                sh("git reset -q", wt)
+                rcd, diff = sh("git diff", wt)
+                if rcd == 0 and diff.strip():
+                    if not os.path.exists(f"{src}/patch.orig.diff"):
+                        shutil.copy(f"{src}/patch.diff", f"{src}/patch.orig.diff")
+                    open(f"{src}/patch.diff", "w").write(diff)
+                    res["patch_rebased"] = True
         if rc != 0:
             res["status"] = "stale: patch no longer applies (" + o.strip().splitlines()[-1][:120] + ")"
             return res
